@@ -300,6 +300,22 @@ def run_property(pid, tier, seed, only, jobs):
             if d is None:
                 d = {"status": "error", "raw": ["no result block in kani output"]}
             results[e["name"]] = d
+        # thorough tier: harnesses marked cross_solver are decided a second time with another SAT back end
+        # (cadical instead of kissat or vice versa); the two verdicts must agree, otherwise the run is inconclusive
+        if tier == "thorough":
+            for e in ents:
+                if not e.get("cross_solver") or results[e["name"]]["status"] not in ("pass", "fail"):
+                    continue
+                alt = "cadical" if e.get("solver") == "kissat" else "kissat"
+                cc = kani_cmd(slot, [full[e["name"]]], 1, tmo) + ["--solver", alt]
+                cr = subprocess.run(cc, cwd=HARNESS, env=env, stdout=subprocess.PIPE, stderr=subprocess.STDOUT,
+                                    text=True, preexec_fn=limit_mem)
+                open(os.path.join(OUT, pid, f"cross_{e['name']}.log"), "w").write(cr.stdout)
+                d2 = parse_kani(cr.stdout, full).get(full[e["name"]]) or {"status": "error"}
+                d = results[e["name"]]
+                d["cross_solver"] = {"solver": alt, "status": d2.get("status"), "verification_time_s": d2.get("time_s")}
+                if d2.get("status") != d["status"]:
+                    d["status"] = "solver-disagreement"
         # an unwinding assertion failed: the code under test has a loop that needs more iterations than the harness
         # bound (typical for a change that replaces straight-line code by a table-driven loop).  Retry that harness
         # once with a much larger bound before giving up; the unwinding assertion stays on.
@@ -428,6 +444,8 @@ def write_evidence(pid, tier, seed, ents, results, t0, nviol, meta, rev, dirty, 
              "solver": e.get("solver", "cadical"), "verification_time_s": d.get("time_s"), "draw_order": e.get("draws", "")}
         if d.get("decided_by"):
             s["decided_by"] = d["decided_by"]
+        if d.get("cross_solver"):
+            s["second_solver"] = d["cross_solver"]
         g = GOALS.get(e["name"], {})
         s["assertions"] = g.get("checks", [])
         if d.get("status") == "pass":
